@@ -16,10 +16,15 @@ Section Install.
 Variable T : tables.
 
 (* old nodes are untouched, the allocation pointer only grows *)
-Definition ext2 (w w' : world) : Prop := w_next w <= w_next w' /\ forall j, j < w_next w -> w_nodes w' j = w_nodes w j.
+Definition ext2 (w w' : world) : Prop :=
+  w_next w <= w_next w' /\ (forall j, j < w_next w -> w_nodes w' j = w_nodes w j) /\ w_models w' = w_models w.
 Lemma ext2_refl w : ext2 w w. Proof. split; [lia|auto]. Qed.
 Lemma ext2_trans a b c : ext2 a b -> ext2 b c -> ext2 a c.
-Proof. intros (N1 & H1) (N2 & H2). split; [lia|]. intros j Hj. rewrite H2 by lia. apply H1. exact Hj. Qed.
+Proof.
+  intros (N1 & H1 & M1) (N2 & H2 & M2). split; [lia|]. split; [|congruence]. intros j Hj. rewrite H2 by lia. apply H1. exact Hj.
+Qed.
+Lemma ext2_old a b j : ext2 a b -> j < w_next a -> w_nodes b j = w_nodes a j.
+Proof. intros (_ & H & _). apply H. Qed.
 
 (* replacing the content list of node i by a list all of whose elements are okpairs below i *)
 Lemma typed_set_content w i n items :
@@ -78,7 +83,7 @@ Proof.
   assert (F1 : Fp w (walloc w n0)).
   { apply (fpp_alloc w n0) with (w := w) (r := OK (w_next w)); [intros m Hm; exact (Hpar m Hm)|apply Fp_refl|exact Ha]. }
   assert (E1 : ext2 w (walloc w n0)).
-  { split; [cbn; lia|]. intros j Hj. apply nodes_walloc_old. unfold i in *. lia. }
+  { split; [cbn; lia|]. split; [|reflexivity]. intros j Hj. apply nodes_walloc_old. unfold i in *. lia. }
   assert (Hi1 : w_nodes (walloc w n0) i = Some n0) by apply nodes_walloc_new.
   assert (G : forall l, (forall c, In (inl c) l -> In (inl c) content) ->
     forall wa r0 wb, inst_go i l wa = Val (r0, wb) -> Bounded wa -> TypedU T wa ->
@@ -102,7 +107,7 @@ Proof.
       split; [exact (ext2_trans _ _ _ E3 E4)|].
       exists (CElem (it_id t) :: items), (Some t :: kds). split; [reflexivity|].
       intros c0 [[= <-]|Hc0].
-      + rewrite Eid. split; [destruct E4; lia|]. exists nr. split; [rewrite (proj2 E4) by lia; exact Hnr|].
+      + rewrite Eid. split; [destruct E4; lia|]. exists nr. split; [rewrite (ext2_old _ _ _ E4) by lia; exact Hnr|].
         destruct (Hfound c Hc) as (v & idx & Hf). rewrite Nnr, Tnr. exists v, (StrictValidDef.e_type c), idx. split; [exact Hf|reflexivity].
       + destruct (K4 c0 Hc0) as (Hr & Hcn). split; [lia|exact Hcn].
     - apply wbind_inv in Hg as [([cs ts] & w4 & H7 & H8) | (e' & H7 & ->)].
@@ -120,14 +125,15 @@ Proof.
   apply wret_inv in H6 as (-> & ->).
   apply modify_node_wset in H5 as (n & Hn & _ & ->).
   assert (Hlt : i < w_next (walloc w n0)) by (cbn; unfold i; lia).
-  assert (n = n0) as -> by (rewrite (proj2 E2) in Hn by exact Hlt; congruence).
+  assert (n = n0) as -> by (rewrite (ext2_old _ _ _ E2) in Hn by exact Hlt; congruence).
   split; [|split; [|split; [|split]]].
   - apply bounded_set_content; [exact B2|exact Hn|]. intros c Hc. destruct (K2 c Hc) as (Hr & _). lia.
   - apply typed_set_content; [exact T2|exact Hn|]. intros c cn Hc Hcn. destruct (K2 c Hc) as (_ & cn' & Hcn' & Hok).
     assert (cn' = cn) by congruence. subst cn'. exact Hok.
   - apply Fp_wset; [exact (Fp_trans w _ w2 (proj1 B) F1 F2)|]. right. split; [intros m Hm; exact (Hpar m Hm)|unfold i; lia].
-  - split; [cbn [wset w_next]; destruct E2 as (X & _); cbn in X; unfold i in *; lia|].
-    intros j Hj. rewrite nodes_wset_neq by (unfold i; lia). rewrite (proj2 E2) by (cbn; lia). apply (proj2 E1). exact Hj.
+  - split; [cbn [wset w_next]; destruct E2 as (X & _); cbn in X; unfold i in *; lia|]. split.
+    + intros j Hj. rewrite nodes_wset_neq by (unfold i; lia). rewrite (ext2_old _ _ _ E2) by (cbn; lia). apply (ext2_old _ _ _ E1). exact Hj.
+    + cbn [wset w_models]. destruct E2 as (_ & _ & ->). reflexivity.
   - exists (INode i kds). split; [reflexivity|]. split; [reflexivity|].
     split; [cbn [wset w_next]; destruct E2 as (X & _); cbn in X; unfold i in *; lia|].
     exists (set_content n0 items). split; [apply nodes_wset_eq|]. auto.
